@@ -211,8 +211,13 @@ def recognition(ctx):
     """a frame is SYNC iff identifier == CobId & 1FFFFFFFh"""
     m = ctx.m
     f = 'COSyncUpdate'
+    EXTB = 1 << 29
     for (cob, ident, exp) in ((0x80, 0x80, True), (0x80 | ON, 0x80, True), (0x80, 0x81, False), (0x180, 0x80, False),
-                              (0x80 | ON, 0x80 | ON, False)):
+                              (0x80 | ON, 0x80 | ON, False),
+                              # 29-bit identifiers: every one of the 29 bits takes part in the comparison
+                              (EXTB | 0x12345, 0x12345, True), (EXTB | 0x12345, 0x345, False), (EXTB | 0x12345, 0x54345, False),
+                              (EXTB | 0x10000080, 0x80, False), (EXTB | 0x10000080, 0x10000080, True), (0x80, 0x880, False),
+                              (EXTB | ON | 0x1FFFFFFF, 0x1FFFFFFF, True), (EXTB | 0x1FFFFFFF, 0x0FFFFFFF, False)):
         inputs = {'frm->Identifier': ident, 'sync->CobId': cob}
         for i in range(m.extent('CO_SYNC', 'TPdo')):
             inputs['sync->TPdo[%d]' % i] = 0
